@@ -1331,7 +1331,8 @@ class Schema(utils.Formattable, utils.JSONConvertible):
   def to_json(self, **kwargs) -> Dict[str, Any]:
     return self.to_json_dict(
         fields=dict(
-            fields=(list(self._fields.values()), []),
+            # `fields` is a required argument of `__init__`: always emit.
+            fields=(list(self._fields.values()), None),
             name=(self._name, None),
             description=(self._description, None),
             allow_nonconst_keys=(self._allow_nonconst_keys, False),
